@@ -13,13 +13,13 @@ def _run(pid, prop, tier, seed, coop_cases, free_cases, rule, assumptions):
     nsh = vlib.NCPU
     cbin = vlib.build_harness("coopmain", "plain")
     res = vlib.run_resumable(cbin, ["--prop", prop, "--mode", "coop", "--seed", str(seed), "--cases", str(coop_cases)], nsh,
-                             timeout=900 if tier == "quick" else 7200, work=work, tag="c")
+                             timeout=300 if tier == "quick" else 7200, work=work, tag="c")
     counters, distinct, samples, stats = vlib.collect_runs(v, res)
     tbin = vlib.build_harness("coopmain", "tsan", opt="-O1")
     # free-running threads: fewer processes than cores so that threads really run in parallel
     nfree = max(2, vlib.NCPU // 3)
     res2 = vlib.run_resumable(tbin, ["--prop", prop, "--mode", "free", "--seed", str(seed), "--cases", str(free_cases), "--spin", "30"], nfree,
-                              timeout=900 if tier == "quick" else 7200, work=work, env=vlib.SAN_ENV_EXPLORE, tag="t")
+                              timeout=300 if tier == "quick" else 7200, work=work, env=vlib.SAN_ENV_EXPLORE, tag="t")
     c2, d2, s2, st2 = vlib.collect_runs(v, res2, judge_report=_tsan_judge)
     stats["tsan_free_running"] = dict(rounds=int(c2.get("evaluations", 0)), monitor_counts=c2.get("counts", {}), **st2)
     v.coverage.update(evaluations=int(counters.get("evaluations", 0)) + int(c2.get("evaluations", 0)), distinct_nontrivial=len(distinct),
